@@ -325,6 +325,24 @@ func ruleGridAxes(r *Run) {
 					}
 					return false
 				}
+			case *ast.SelectorExpr:
+				// a field of a local struct built by a literal: the value given to that field
+				if id, ok := ast.Unparen(v.X).(*ast.Ident); ok {
+					if obj, ok := fn.Info().Uses[id].(*types.Var); ok && !obj.IsField() {
+						if ds, ok := fn.Defs().singleDef(obj); ok && ds.kind == "assign" && !ds.multi && ds.rhs != nil {
+							rhs := ast.Unparen(ds.rhs)
+							if u, ok := rhs.(*ast.UnaryExpr); ok && u.Op == token.AND {
+								rhs = ast.Unparen(u.X)
+							}
+							if cl, ok := rhs.(*ast.CompositeLit); ok {
+								if fv := litField(cl, v.Sel.Name); fv != nil {
+									kind = countKind(fn, fv, depth+1)
+								}
+								return false
+							}
+						}
+					}
+				}
 			case *ast.Ident:
 				if obj, ok := fn.Info().Uses[v].(*types.Var); ok && !obj.IsField() {
 					if ds, ok := fn.Defs().singleDef(obj); ok && ds.kind == "assign" && !ds.multi && ds.rhs != nil {
